@@ -37,6 +37,29 @@ def thorough_builds():
     return out
 
 
+def _is_snan(a):
+    if a < (1 << 32):
+        return (a & 0x7f800000) == 0x7f800000 and (a & 0x7fffff) != 0 and not (a & 0x400000)
+    return (a & 0x7ff0000000000000) == 0x7ff0000000000000 and (a & ((1 << 52) - 1)) != 0 and not (a & (1 << 51))
+
+
+def snan_not_quieted(line, other):
+    """True if `line` is a call with a signalling-NaN argument whose integer result differs from `other` (an int, or another output
+    line of the same call) in nothing but a NaN quiet bit (bit 22 / bit 51), or sits on the other side of a mask of it."""
+    p = diff.parse_call(line)
+    if not p or ':' not in p[3] or p[3].startswith('trap'):
+        return False
+    if not any(_is_snan(a) for a in p[2]):
+        return False
+    v = int(p[3].split(':')[1], 16)
+    if not isinstance(other, int):
+        q = diff.parse_call(other)
+        if not q or ':' not in q[3] or q[3].startswith('trap'):
+            return False
+        other = int(q[3].split(':')[1], 16)
+    return (v ^ other) in (0x00400000, 1 << 51)
+
+
 def compile_sweep(chk, w2c2, quick):
     """'The emitted C compiles without errors as GNU-dialect C89 and later with gcc and clang' over many PROGRAM SHAPES: generated
     control-heavy modules (value-carrying branches over mixed-type operands, never-falling-through blocks, dead code built from
@@ -201,14 +224,19 @@ def main(chk):
                             msg = spec.check_expected(l, meta)
                             chk.observe('spec_expectations_checked')
                             if msg:
-                                chk.violation('C11:spec-expectation:%s' % btag, '%s build %s: "%s": %s' % (tag, btag, l, msg), files)
+                                key = 'C11:spec-expectation:%s' % btag
+                                if msg.startswith('expected 0x') and snan_not_quieted(l, int(msg.split(' ')[1].rstrip(','), 16)):
+                                    key = 'C11:snan-not-quieted:%s' % btag
+                                chk.violation(key, '%s build %s: "%s": %s' % (tag, btag, l, msg), files)
                                 break
             base = ref if ref is not None else okouts[first_tag]
             for btag, out in okouts.items():
                 if out != base and not (len(out) == len(base) and all(spec.nan_tolerant_equal(x_, y_, meta) for x_, y_ in zip(base, out))):
                     dl = [(x_, y_) for x_, y_ in zip(base, out) if x_ != y_][:2]
                     against = 'V8 reference' if ref is not None else first_tag
-                    chk.violation('C11:build-divergence:%s' % btag, '%s: build %s prints different results than %s: %s' % (tag, btag, against, dl),
+                    alld = [(x_, y_) for x_, y_ in zip(base, out) if x_ != y_ and not spec.nan_tolerant_equal(x_, y_, meta)]
+                    kname = 'snan-not-quieted' if alld and all(snan_not_quieted(y_, x_) for x_, y_ in alld) else 'build-divergence'
+                    chk.violation('C11:%s:%s' % (kname, btag), '%s: build %s prints different results than %s: %s' % (tag, btag, against, dl),
                                   dict(files, a='\n'.join(base), b='\n'.join(out)))
         if ii < 2:
             chk.sample({'module': tag, 'builds': sorted(outs), 'calls': ncalls})
